@@ -471,10 +471,16 @@ def check_coo_arg_exception(group_coo, group_arg, version):
                 group_arg.type in
                 version.parameters.angular_dependent_sidechain_interactions
                 ):
-            atom3 = closest_arg_atom.bonded_atoms[0]
-            dist, f_angle, _ = angle_distance_factors(closest_coo_atom,
-                                                      closest_arg_atom,
-                                                      atom3)
+            if closest_arg_atom.element == 'H':
+                atom3 = closest_arg_atom.bonded_atoms[0]
+                dist, f_angle, _ = angle_distance_factors(closest_coo_atom,
+                                                          closest_arg_atom,
+                                                          atom3)
+            else:
+                # a nitrogen is closest: no hydrogen points at the
+                # carboxylate (cf. hydrogen_bond_interaction); its first
+                # bonded atom is arbitrary and must not define an angle
+                f_angle = 0.0
         value = hydrogen_bond_energy(dist, dpka_max, cutoff, f_angle)
         value_tot += value
         # remove closest atoms before we attemp to find the runner-up pair
